@@ -30,6 +30,7 @@ def check(ck):
         _argument_table(ck, repo)
     with ck.rule("R2"):
         _coerce_arguments(ck, repo)
+        arguments_coercers_positional(ck, repo)
     with ck.rule("R3"):
         _siblings(ck, repo)
     with ck.rule("R4"):
@@ -604,3 +605,37 @@ def _usage_coverage(ck, repo):
         ck.ob(f"{f.name}: a variable placed at this input position is registered for type checking against the expected type", guarded, f, f.node,
               construct=f"usage:{f.name}",
               detail="variables nested in list/object literals are never checked by all-variable-usages-are-allowed and reach resolvers uncoerced")
+
+
+def arguments_coercers_positional(ck, repo):
+    """coerce_arguments pairs results with argument definitions by position (zip): both built-in arguments coercers
+    return exactly one entry per coroutine, in order, a failure being the entry itself."""
+    from ..pathtab import iteration_outcomes
+
+    g = repo.func("tartiflette/resolver/default.py", "gather_arguments_coercer")
+    r = FuncView(g).returns()
+    ok = len(r) == 1 and unparse(strip_await(r[0].value)) == "asyncio.gather(*coroutines, return_exceptions=True)" and isinstance(r[0].value, ast.Await)
+    ck.ob("gather_arguments_coercer: one result per coroutine, in order, failures as values (asyncio.gather with return_exceptions=True)", ok, g, r[0] if r else g.node,
+          construct="positional:gather")
+    f = repo.func("tartiflette/resolver/default.py", "sync_arguments_coercer")
+    fv = FuncView(f)
+    lps = [l for l in fv.loops() if isinstance(l, ast.For) and unparse(l.iter) == (f.node.args.vararg.arg if f.node.args.vararg else "?")]
+    ok, detail = False, None
+    if len(lps) == 1:
+        ap = [c for c in fv.calls("append") if contains(lps[0], c)]
+        out = iteration_outcomes(fv.cfg, lps[0], lambda n, env: None, lambda n: "append" if (n.kind == "stmt" and ap and any(contains(n.ast, a) for a in ap)) else (
+            "handler" if n.kind == "handler" else None), into_handlers=True)
+        detail = str(sorted(sorted(o) for o in out))
+        hs = fv.handlers()
+        hb = len(hs) == 1 and hs[0].name and any(isinstance(n, ast.Assign) and unparse(n.value) == hs[0].name for n in hs[0].body)
+        appended = unparse(ap[0].args[0]) if len(ap) == 1 else None
+        aw = [n for n in walk_no_nested(lps[0]) if isinstance(n, ast.Assign) and isinstance(n.value, ast.Await) and unparse(n.value.value) == unparse(lps[0].target)]
+        ok = len(ap) == 1 and bool(out) and all("append" in o and "<return>" not in o and "<raise>" not in o for o in out) and any("handler" in o for o in out) and hb and len(aw) == 1 and \
+            appended == unparse(aw[0].targets[0]) and any(isinstance(n, ast.Assign) and unparse(n.targets[0]) == appended for n in hs[0].body) and \
+            not any(isinstance(n, (ast.Break, ast.Continue, ast.Return)) for n in walk_no_nested(lps[0])) and unparse(ap[0].func.value) == unparse(fv.returns()[0].value)
+    ck.ob("sync_arguments_coercer: every iteration - normal or failing - appends exactly one entry (the awaited value or the exception) and the list is returned", ok, f,
+          lps[0] if lps else f.node, construct="positional:sync", detail=detail)
+    d = repo.func("tartiflette/schema/schema.py", "GraphQLSchema.bake")
+    st = [n for n in ast.walk(d.node) if isinstance(n, ast.Assign) and unparse(n.targets[0]) == "self.default_arguments_coercer"]
+    ok = len(st) == 1 and unparse(st[0].value) == f"custom_default_arguments_coercer or gather_arguments_coercer"
+    ck.ob("the schema's default arguments coercer is the custom one, else gather_arguments_coercer", ok, d, st[0] if st else d.node, construct="positional:default")
